@@ -1373,9 +1373,9 @@ def replay(rep):  # noqa: F811
 
 # ---- digits (C05): printed numerals parsed back and compared with the raw rational (bounded stand-in / replay) ----
 _DIG_VALUES = ['1/7', '22/7', '1/3', '1/3937', '1/1000000007', '123456789/1000', '1e20', '1e-12', '0.1', '255', '-5/3', '1/97', '1234567.891', '2^70', '1/2^20', '10.5', '100.5',
-               '999999999.5', '0.000000001', '1/6', '7/12', '-0.05', '3', '1000000', '1/81', '123/999', '2/3 * 1e-5']
-_DIG_MODES = ['', 'digits 3', 'digits 20', 'digits 0', 'sci', 'eng', 'frac']
-_DIG_BASES = [10, 2, 7, 16, 36]
+               '999999999.5', '0.000000001', '1/6', '7/12', '-0.05', '3', '1000000', '1/81', '123/999', '2/3 * 1e-5', '1/34', '1/28', '1/17', '5/68', '1/61', '1234567891', '-1234567891']
+_DIG_MODES = ['', 'digits', 'digits 3', 'digits 20', 'digits 0', 'sci', 'eng', 'frac']
+_DIG_BASES = [10, 2, 7, 16, 30, 31, 36]
 
 
 def _digval(c):
